@@ -33,7 +33,7 @@ def run(ck, prog, tier, load):
     crates = ["actix_http"]
     bodies = [b for b in prog.bodies.values() if b.crate == "actix_http"]
     inner = {b.npath.split("::")[-1]: b for b in prog.find(r"^%s::[a-z_]+$" % INNER)}
-    ck.anchor("C07-anchor", len(inner), 10, "methods of h1::payload::Inner")
+    ck.anchor("C07-anchor", len(inner), 5, "methods of h1::payload::Inner")
     for need in ("feed_data", "feed_eof", "set_error", "close_sender", "poll_next", "unread_data", "wake", "wake_io", "register", "register_io"):
         if need not in inner:
             ck.ob("C07-anchor", "method-missing|" + need, False, detail="Inner::%s not found" % need, nontrivial=False)
@@ -42,7 +42,7 @@ def run(ck, prog, tier, load):
 
     # ---- (a) queue discipline -----------------------------------------
     mc = method_calls_on_field(prog, F + r"items$", crates)
-    ck.anchor("C07-a", len(mc), 3, "method calls on Inner.items")
+    ck.anchor("C07-a", len(mc), 2, "method calls on Inner.items")
     seen = set()
     for b, bb, t, m in mc:
         owner = b.npath
@@ -133,7 +133,7 @@ def run(ck, prog, tier, load):
             ok, wit = b.must_pass_after(st, b.returns(), wk)
             ck.ob("C07-b.wake-after-change", "%s|bb-kind:%s" % (b.npath, "push" if b.term(st)["k"] == "call" and is_call(b.term(st), "push_back") else "field"),
                   ok, b, st, "every path from the state change to return passes Inner::wake", witness=b.path_lines(wit))
-    ck.anchor("C07-b", n_b, 3, "Inner methods that change producer-side state (feed_data, feed_eof, set_error)")
+    ck.anchor("C07-b", n_b, 2, "Inner methods that change producer-side state (feed_data, feed_eof, set_error)")
     # close_sender: path on which sender_closed was false must reach set_error(Incomplete)
     cs = inner["close_sender"]
     se = [bb for bb, t in cs.calls(INNER + r"::set_error$")]
@@ -278,6 +278,6 @@ def run(ck, prog, tier, load):
             c is not None and c[0] == "Lt" and c[3] is True and last_field(c[1]) and rx(F + "len$").search(last_field(c[1])) and e_has_const(c[2], r"payload::MAX_BUFFER_SIZE$")
         )
         ck.ob("C07-d.need-read-expr", "%s" % b.npath, bool(ok), b, bb, "need_read := %s" % short(e))
-    ck.anchor("C07-d", n, 3, "writes of Inner.need_read")
+    ck.anchor("C07-d", n, 2, "writes of Inner.need_read")
     v = prog.consts.get("actix_http::h1::payload::MAX_BUFFER_SIZE", {}).get("int")
     ck.ob("C07-d.limit-const", "MAX_BUFFER_SIZE", isinstance(v, int) and 0 < v <= 1 << 20, None, None, "h1::payload::MAX_BUFFER_SIZE = %s" % v, nontrivial=False)
